@@ -131,7 +131,7 @@ impl Property for C07 {
     const ID: &'static str = "C07";
 
     fn rule() -> String {
-        "Keys from the boundary set x both compression forms x every network prefix byte; 20-byte hashes with 0..20 leading zero bytes; corruptions of valid addresses and WIF strings (one base58 character replaced, one payload byte changed under the old checksum, a checksum byte changed, a valid checksum over a payload 1-2 bytes too long or short, a character dropped or appended, a wrong compression suffix); candidate public keys (valid in both forms, x not on the curve, x >= p, wrong y, the identity encoding, wrong length, wrong prefix byte). Oracle: reference secp256k1 point arithmetic / SEC1 codec, HASH160, Base58Check, WIF on num-bigint: derived public key, hash, address string for every prefix, WIF and locking script must be equal; all round trips hold; every valid encoding is accepted, every corruption rejected; from_bytes accepts exactly what the strict reference decoder accepts; get_unlocking_script succeeds (with bytes push(sig)||push(pub)) exactly for the address's own key under every prefix. Non-trivial = hash with leading zero bytes, non-zero prefix, uncompressed form, or a rejection class; distinct by hash of the serialised case.".into()
+        "Keys from the boundary set x both compression forms x every network prefix byte; 20-byte hashes with 0..20 leading zero bytes; corruptions of valid addresses and WIF strings (one base58 character replaced, one payload byte changed under the old checksum, a checksum byte changed, a valid checksum over a payload 1-2 bytes too long or short, a character dropped or appended, a wrong compression suffix); candidate public keys (valid in both forms, x not on the curve, x >= p, wrong y, the identity encoding, wrong length, every tag byte incl. the SEC1 compact and hybrid tags, any single byte overwritten). Oracle: reference secp256k1 point arithmetic / SEC1 codec, HASH160, Base58Check, WIF on num-bigint: derived public key, hash, address string for every prefix, WIF and locking script must be equal; all round trips hold; every valid encoding is accepted, every corruption rejected; from_bytes accepts exactly what the strict reference decoder accepts; get_unlocking_script succeeds (with bytes push(sig)||push(pub)) exactly for the address's own key under every prefix. Non-trivial = hash with leading zero bytes, non-zero prefix, uncompressed form, or a rejection class; distinct by hash of the serialised case.".into()
     }
 
     fn assumptions() -> Vec<String> {
@@ -147,7 +147,7 @@ impl Property for C07 {
     }
 
     fn exhaustive_spaces(_tier: Tier) -> Vec<String> {
-        vec!["hashes with every count 0..=20 of leading zero bytes x prefixes {0x00, 0x6f, 0xff}".into()]
+        vec!["hashes with every count 0..=20 of leading zero bytes x prefixes {0x00, 0x6f, 0xff}".into(), "every tag byte 0..=255 in front of the valid 32- and 64-byte bodies of three keys".into()]
     }
 
     fn exhaustive(_tier: Tier, shard: usize, nshards: usize, f: &mut dyn FnMut(Case) -> bool) {
@@ -157,6 +157,17 @@ impl Property for C07 {
                 idx += 1;
                 if idx % nshards == shard && !f(Case::Hash { zeros, rest: vec![0xa1, 0xb2, 0xc3], prefix }) {
                     return;
+                }
+            }
+        }
+        // every tag byte in front of a valid compressed / uncompressed encoding (three keys)
+        for d in [1u8, 2, 77] {
+            for kind in [8u8, 9] {
+                for tag in 0..=255u8 {
+                    idx += 1;
+                    if idx % nshards == shard && !f(Case::PubCandidate { kind, d: Scalar::Small(d), x: vec![], tweak: tag }) {
+                        return;
+                    }
                 }
             }
         }
@@ -171,7 +182,7 @@ impl Property for C07 {
             4 => (zeros(), rest(), prefix()).prop_map(|(zeros, rest, prefix)| Case::Hash { zeros, rest, prefix }),
             6 => (zeros(), rest(), prefix(), corruption()).prop_map(|(zeros, rest, prefix, how)| Case::CorruptAddr { zeros, rest, prefix, how }),
             5 => (keys::key(), corruption(), any::<u8>()).prop_map(|(key, how, bad_suffix)| Case::CorruptWif { key, how, bad_suffix }),
-            6 => (0u8..8, keys::scalar(), prop::collection::vec(any::<u8>(), 32), any::<u8>()).prop_map(|(kind, d, x, tweak)| Case::PubCandidate { kind, d, x, tweak }),
+            6 => (0u8..11, keys::scalar(), prop::collection::vec(any::<u8>(), 32), any::<u8>()).prop_map(|(kind, d, x, tweak)| Case::PubCandidate { kind, d, x, tweak }),
         ]
         .boxed()
     }
@@ -334,7 +345,7 @@ impl Property for C07 {
             Case::PubCandidate { kind, d, x, tweak } => {
                 let p = secp::p();
                 let pt = secp::pubkey(&d.value());
-                let cand: Vec<u8> = match kind % 8 {
+                let cand: Vec<u8> = match kind % 11 {
                     0 => secp::encode_point(&pt, true),
                     1 => secp::encode_point(&pt, false),
                     2 => {
@@ -363,6 +374,19 @@ impl Property for C07 {
                         } else {
                             v.push(*tweak);
                         }
+                        v
+                    }
+                    8 | 9 => {
+                        // a valid encoding under every possible tag byte (0x05 is SEC1's "compact" tag, 0x06 / 0x07 the hybrid ones)
+                        let mut v = secp::encode_point(&pt, kind % 11 == 8);
+                        v[0] = *tweak;
+                        v
+                    }
+                    10 => {
+                        // any single byte of a valid encoding overwritten
+                        let mut v = secp::encode_point(&pt, x.first().map(|b| b & 1 == 0).unwrap_or(true));
+                        let i = gen::pick(u16::from_le_bytes([x.get(1).cloned().unwrap_or(0), x.get(2).cloned().unwrap_or(0)]), v.len());
+                        v[i] = *tweak;
                         v
                     }
                     _ => {
@@ -395,7 +419,7 @@ impl Property for C07 {
                         o.label("candidate-valid");
                     }
                     (Err(_), None) => o.nt("candidate-rejected"),
-                    (Ok(_), None) => return Err(failure("only_curve_points_accepted", format!("Ok for {} (class {})", hex::encode(&cand), kind % 8), "Err: not the encoding of a non-identity curve point")),
+                    (Ok(_), None) => return Err(failure("only_curve_points_accepted", format!("Ok for {} (class {})", hex::encode(&cand), kind % 11), "Err: not the encoding of a non-identity curve point")),
                     (Err(e), Some(_)) => return Err(failure("valid_point_accepted", format!("Err({}) for {}", e, hex::encode(&cand)), "Ok")),
                 }
                 let _ = BigUint::one();
